@@ -45,6 +45,14 @@ def cases(tier, seed):
            ['disjoint', ['named', 'cycle', 5], ['named', 'cycle', 7]], ['disjoint', ['named', 'complete', 3], ['named', 'cycle', 6]],
            ['disjoint', ['named', 'cycle', 4], ['named', 'cycle', 4], ['named', 'cycle', 4]], ['iso', ['named', 'wheel', 6], 2],
            ['named', 'star', 7], ['named', 'path', 7], ['named', 'grid', 3, 3], ['named', 'ring_of_cliques', 3, 3]]
+    # several relabelled copies of one irregular graph: the top eigenvalue is repeated once per copy and a solver is free
+    # to return any rotation inside that eigenspace (mixed signs across the copies)
+    for t in range(3):
+        base = ['named', 'er_connected', 5 + t, .5, seed + t]
+        sym += [['disjoint', base, base], ['disjoint', base, base, base], ['disjoint', base, base, ['named', 'path', 3]]]
+    sym += [['disjoint', ['named', 'path', 4], ['named', 'path', 4], ['named', 'path', 4]],
+            ['disjoint', ['named', 'cycle', 5], ['named', 'cycle', 5], ['named', 'cycle', 5], ['named', 'cycle', 5]],
+            ['disjoint', ['named', 'star', 4], ['named', 'star', 4], ['named', 'star', 4]]]
     if thorough:
         sym += [['named', 'hypercube', 4], ['named', 'circulant', 16, [1, 4]], ['named', 'kab', 6, 6], ['named', 'cycle', 24]]
     for i, g in enumerate(sym):
